@@ -14,6 +14,18 @@ A_MEMRCHR = 'A-MEMRCHR: memchr::memrchr returns the last index of the byte or No
 A_TOOLS = 'rustc, Verus 0.2026.09.13 + Z3, Kani 0.68 + CBMC 6.11 (CaDiCaL), and the extractor/overlay scripts under /verif/lib (mitigated by the line-subsequence re-check, canaries and selftest)'
 A_ARITH = 'machine arithmetic is checked on the real widths by both tools; range preconditions: wal_size <= 2^62, sequence < u64::MAX, payload length >= 1, slice length <= isize::MAX'
 
+
+
+def H(mod, name, tier='quick', kind='complete', bound='', playback=True):
+    # playback=False: the harness relies on stubs / contract replacement, which do not exist in a native
+    # run; its refutations are replayed through the native search drivers instead (lib/native.py)
+    return {'id': '%s::verif_kani::%s' % (mod, name), 'tier': tier, 'kind': kind, 'bound': bound, 'playback': playback}
+
+
+HDR, FTR, TIX, SKT, WAL, LEX, ADP, VEC = ('io::header', 'footer', 'io::time_index', 'types::sketch_track', 'io::wal', 'lex',
+                                          'types::adaptive', 'vec')
+A_KANI_STUBS = 'Kani stubs replace only dependency / OS functions (File seek/write/read/sync_all/try_clone, blake3) by the models stated in A-FILE / A-HASH; every memvid function on the path runs as compiled from /repo'
+
 PROPS = {
     'C31': {
         'title': 'Footer scan finds the most recent valid commit',
@@ -28,6 +40,8 @@ PROPS = {
             {'id': 'footer::verif_kani::footer_decode_implies_encode', 'tier': 'quick', 'kind': 'complete'},
             {'id': 'footer::verif_kani::footer_decode_rejects_wrong_length', 'tier': 'quick', 'kind': 'complete'},
             {'id': 'footer::verif_kani::footer_size_constant', 'tier': 'quick', 'kind': 'complete'},
+            H(FTR, 'footer_hash_matches_l1', 'quick', 'bounded', 'TOC of exactly 1 byte (loop is in the hash stub; hash_matches itself is loop-free)', playback=False),
+            H(FTR, 'footer_hash_matches_l5', 'quick', 'bounded', 'TOC of exactly 5 bytes', playback=False),
         ],
         'assumptions': [A_MEMRCHR, A_HASH, A_ARITH, A_TOOLS,
                         'A-CODEC(footer): Verus sees CommitFooter::decode/hash_matches through assumed contracts (decode is a function of the bytes and accepts only 56-byte images starting with the magic; hash_matches is a function of footer and TOC bytes); the decode part is proved of the real function by the Kani harnesses footer_decode_implies_encode / footer_decode_rejects_wrong_length'],
@@ -46,5 +60,67 @@ PROPS = {
         'assumptions': [A_FILE, A_HASH, A_LE, A_TRACE, A_ARITH, A_TOOLS],
         'not_covered': [],
         'search': 'wal',
+    },
+
+    'C30': {
+        'title': 'File-format codecs round-trip and reject malformed input',
+        'level': 'model_checking',
+        'level_text': 'Header and commit-footer codecs: complete proofs (Kani/CBMC, loop-free harnesses over ALL header values, ALL 4096-byte images, ALL footer values, ALL 56-byte images, compiled inside the real crate): decode(encode(v)) == v, encode rejects exactly the invalid headers, an accepted image is the canonical encoding of the value returned (so a wrong magic/version/spec/wal_offset/wal_size is rejected and no different value is returned). Time index: BOUNDED (n <= 3 entries, every i64/u64 value): append_track sorts by (timestamp, frame_id), permutes, length = 12+16n, read_track returns exactly those; an arbitrary image of 12+16n bytes with an arbitrary declared length is accepted only with the right magic, length and order, and never panics. TOC (serde/bincode) is NOT covered.',
+        'level_note': 'Level is model_checking because the time-index part is bounded by the entry count (n <= 3; n <= 2 in the quick tier) and the TOC codec is not covered at all (serde-derived bincode visitors over String/BTreeMap are outside both tools). The header/footer parts are complete (no bound). blake3::Hasher is stubbed in the time-index harnesses (the checksum value plays no role in these obligations).',
+        'technique': 'Kani loop-free full-domain codec harnesses (complete) + bounded Kani harnesses for the time index, inside the real crate',
+        'design_ref': 'DESIGN.md section 3 (C30)',
+        'verus': [],
+        'kani': [
+            H(HDR, 'header_encode_decode_roundtrip'), H(HDR, 'header_decode_implies_encode'), H(HDR, 'header_clear_legacy_lock'),
+            H(FTR, 'footer_roundtrip'), H(FTR, 'footer_decode_implies_encode'), H(FTR, 'footer_decode_rejects_wrong_length'),
+            H(TIX, 'time_track_roundtrip_n0', 'quick', 'bounded', '0 entries'),
+            H(TIX, 'time_track_roundtrip_n1', 'quick', 'bounded', '1 entry, all i64/u64 values'),
+            H(TIX, 'time_track_roundtrip_n2', 'quick', 'bounded', '2 entries, all i64/u64 values'),
+            H(TIX, 'time_track_roundtrip_n3', 'thorough', 'bounded', '3 entries, all i64/u64 values'),
+            H(TIX, 'time_track_rejects_n0', 'quick', 'bounded', 'all 12-byte images, any declared length'),
+            H(TIX, 'time_track_rejects_n1', 'thorough', 'bounded', 'all 28-byte images, any declared length'),
+        ],
+        'assumptions': [A_HASH, A_LE, A_TRACE, A_TOOLS, A_KANI_STUBS,
+                        'std::io::Cursor<Vec<u8>> stands for the file in the time-index harnesses (real std code, not a stub)'],
+        'not_covered': ['TOC: Toc::encode / decode / verify_checksum (serde-derived bincode with legacy fall-backs) - no contract within reach of Verus or CBMC',
+                        'time index with more than 3 entries (bounded)', 'checksum values (blake3 stubbed)'],
+        'search': {'header|footer': 'codec', 'time_index': 'codec'},
+    },
+    'C39': {
+        'title': 'Sketch term filter has no false negatives; sketch track round-trips',
+        'level': 'model_checking',
+        'level_text': 'Term filter: for hash lists of exactly n <= 6 hashes (n <= 3 quick), EVERY 64-bit hash value, every supported filter size (16/32/64 bytes) and every index i, term_filter_maybe_contains(build_term_filter(hs, size), hs[i]) holds (Kani/CBMC on the real functions; BOUNDED by n); term_filter_maybe_contains is monotone in the filter for all 16-byte filters and all hashes (complete); empty/full filter extremes (complete). Entry and header codecs (SketchEntrySmall/Medium, SketchTrackHeader): complete loop-free round-trip proofs over all values / all images.',
+        'level_note': 'Bounded in the number of token hashes. The tokenizer -> compute_token_weights -> hash_token chain (NFKC, HashMap, blake3) that feeds build_term_filter is ASSUMED to hand every produced token hash to build_term_filter (A-TOKCHAIN, unchecked). The whole-track clause (write_sketch_track/read_sketch_track through HashMap<FrameId,_>) is covered only through the entry/header codecs; see not_covered and known_findings.txt.',
+        'technique': 'Kani bounded harnesses (filter) + loop-free full-domain codec harnesses (complete) inside the real crate',
+        'design_ref': 'DESIGN.md section 3 (C39)',
+        'verus': [],
+        'kani': [
+            H(SKT, 'filter_no_false_negative_n1', 'quick', 'bounded', '1 hash'), H(SKT, 'filter_no_false_negative_n2', 'quick', 'bounded', '2 hashes'),
+            H(SKT, 'filter_no_false_negative_n3', 'quick', 'bounded', '3 hashes'), H(SKT, 'filter_no_false_negative_n4', 'thorough', 'bounded', '4 hashes'),
+            H(SKT, 'filter_no_false_negative_n6', 'thorough', 'bounded', '6 hashes'),
+            H(SKT, 'filter_contains_monotone_16'), H(SKT, 'filter_contains_extremes'),
+            H(SKT, 'sketch_small_roundtrip'), H(SKT, 'sketch_small_bytes_roundtrip'), H(SKT, 'sketch_medium_roundtrip'),
+            H(SKT, 'sketch_header_roundtrip'), H(SKT, 'sketch_header_rejects_bad_magic'),
+        ],
+        'assumptions': [A_TOOLS, A_TRACE, 'A-TOKCHAIN: every token produced by the sketch tokenizer reaches build_term_filter as hash_token(token) (unchecked: string tables, HashMap, blake3)',
+                        'filter_size_bytes is one of 16/32/64 (SketchVariant::term_filter_size); size 0 would divide by zero and is outside the property'],
+        'not_covered': ['tokenize_for_sketch / compute_token_weights / hash_token chain (A-TOKCHAIN)', 'filter built from more than 6 hashes (bounded)'],
+        'search': 'sketch',
+    },
+    'C13': {
+        'title': 'Vector search returns the exact nearest neighbours',
+        'level': 'model_checking',
+        'level_text': 'BOUNDED (exactly m <= 5 documents, m <= 3 quick; every distance value, every frame id, every k): VecIndex::search on the Uncompressed (brute-force) representation returns min(k, m) hits, in non-decreasing distance, each hit carrying its own document id and distance, no document twice, and no omitted document strictly closer than the last hit; an empty query returns nothing. l2_distance is replaced by its contract (some non-NaN f32 >= 0 per document).',
+        'level_note': 'Brute-force path only. NOT covered: the dimension check in Memvid::search_vec, identity of results after close/reopen, HNSW / PQ representations (feature-gated or approximate by construction), and the float definition of the distance (that is C38).',
+        'technique': 'Kani bounded harnesses on the real VecIndex::search with l2_distance replaced by its contract',
+        'design_ref': 'DESIGN.md section 3 (C13)',
+        'verus': [],
+        'kani': [H(VEC, 'search_exact_m0', 'quick', 'bounded', '0 documents', playback=False), H(VEC, 'search_exact_m1', 'quick', 'bounded', '1 document', playback=False),
+                 H(VEC, 'search_exact_m2', 'quick', 'bounded', '2 documents', playback=False), H(VEC, 'search_exact_m3', 'quick', 'bounded', '3 documents', playback=False),
+                 H(VEC, 'search_exact_m4', 'thorough', 'bounded', '4 documents', playback=False), H(VEC, 'search_exact_m5', 'thorough', 'bounded', '5 documents', playback=False),
+                 H(VEC, 'search_empty_query', 'quick', 'bounded', '1 document', playback=False)],
+        'assumptions': [A_TOOLS, A_TRACE, 'A-L2: l2_distance(query, doc) is a total function of the document returning a non-NaN value >= 0 (contract stub; its float definition is C38, not claimed)'],
+        'not_covered': ['Memvid::search_vec dimension validation', 'results after close and reopen', 'HNSW / product-quantised representations', 'more than 5 documents (bounded)'],
+        'search': 'vec',
     },
 }
